@@ -12,9 +12,9 @@ import vlib
 from checks.common import run_harness
 
 OUTBOX = ["legit_emb", "legit_ref", "legit_actor_emb", "legit_noid", "legit_stub", "legit_announce", "other_actor",
-          "other_actor_samehost_query", "no_actor", "fetch_fails", "not_activity", "foreign_claims_owner_id", "actor_fetch_fails", "anon_actor"]
+          "other_actor_samehost_query", "no_actor", "fetch_fails", "not_activity", "foreign_claims_owner_id", "actor_fetch_fails", "anon_actor", "redirected_forged"]
 REPLIES = ["legit_emb", "legit_ref", "legit_stub", "other_parent", "no_parent", "parent_fetch_fails", "fetch_fails",
-           "not_post", "parent_other_host_same_path", "forged_author", "anon_parent"]
+           "not_post", "parent_other_host_same_path", "forged_author", "anon_parent", "redirected_forged"]
 
 _cache = {}
 
@@ -90,4 +90,17 @@ def run(ctx):
             continue    # provenance violations are C02's (it runs this driver too)
         path = vlib.save_replay(ctx.pid, "l%d" % b["line"], e)
         res.violations.append((sig, path, text))
+    # what a page lists when its loads finish after the user has moved on: pages left and walked while loads are in flight
+    from checks import uidrv
+    kevs, kbad = uidrv.gated_sessions(ctx, res)
+    res.traces += sum(1 for e in kevs if e["ev"] == "reset")
+    res.extra["pages_walked_after_leaving_them_during_a_load"] = sum(1 for e in kevs if e["ev"] == "reset")
+    for e in kevs:
+        if e["ev"] == "resync":
+            res.case(["gated", e["world"], e.get("obs")])
+    for b in kbad:
+        e = kevs[b["line"] - 1]
+        sig = {"monitor": "T_UI", "why": b["why"], "key": e.get("k")}
+        path = vlib.save_replay(ctx.pid, "gated-l%d" % b["line"], e)
+        res.violations.append((sig, path, "world %s: %s; observed %s" % (e["world"], b["why"], e.get("obs"))))
     return res
